@@ -55,7 +55,13 @@ def describe_data_key(sym, dtype, td):
 
 
 class Built:
-    __slots__ = ('x', 'A', 'spaces', 's', 'n', 'nblocks', 'nallowed', 'td')
+    __slots__ = ('x', 'A', 'spaces', 's', 'n', 'nblocks', 'nallowed', 'td', '_own')
+
+    @property
+    def own(self):
+        if getattr(self, '_own', None) is None:
+            self._own = MD.native_spaces(self.x)
+        return self._own
 
 
 def build(cfg, sym, td, seed, generic=False):
@@ -109,6 +115,7 @@ def build(cfg, sym, td, seed, generic=False):
     elif var[0] == 'copy':
         x = x.copy()
     b = Built()
+    b._own = None
     b.x, b.A, b.spaces, b.s, b.n, b.nblocks, b.nallowed, b.td = x, A, spaces, sig, n, len(keys), nallowed, td
     return b
 
